@@ -14,6 +14,7 @@ from xdsl.dialects.x86.registers import (
     RBX,
     RSP,
     GeneralRegisterType,
+    Reg64Type,
 )
 from xdsl.passes import ModulePass
 from xdsl.rewriter import InsertPoint
@@ -30,13 +31,15 @@ class X86PrologueEpilogueInsertion(ModulePass):
     name = "x86-prologue-epilogue-insertion"
 
     def _process_function(self, func: x86_func.FuncOp) -> None:
+        # ebx/bx/bl are parts of rbx: compare by hardware index, save the 64-bit register.
         used_callee_preserved_registers = OrderedSet(
-            res.type
+            Reg64Type.from_index(res.type.index.data)
             for op in func.walk()
             if not isinstance(op, x86.GetRegisterOp)
             for res in op.results
             if isinstance(res.type, GeneralRegisterType)
-            if res.type in X86_CALLEE_SAVED_REGISTERS
+            if isinstance(res.type.index, builtin.IntAttr) and res.type.index.data >= 0
+            if Reg64Type.from_index(res.type.index.data) in X86_CALLEE_SAVED_REGISTERS
         )
 
         if not used_callee_preserved_registers:
